@@ -287,7 +287,7 @@ package stream
 //@ let n = dcalls("stream.(*stream).openStream")
 //@ loop 1 unroll 6
 //@ ensures.closed_gives_up[C11] old(s.observers) == nil ==> n == 0
-//@ ensures.open_tries[C12] old(s.observers) != nil ==> n >= 1
+//@ ensures.open_tries[C12,C15] old(s.observers) != nil ==> n >= 1
 //@ ensures.bounded[C12,C15] n <= 5
 //@ ensures.until_success[C12,C15] n >= 1 ==> (forall i int :: 0 <= i && i < n - 1 ==> dret("stream.(*stream).openStream", i, 0) != nil) && (dret("stream.(*stream).openStream", n - 1, 0) == nil || s.observers == nil)
 //@ ensures.same_vb[C12] forall i int :: 0 <= i && i < n ==> darg("stream.(*stream).openStream", i, vbID) == vbID && darg("stream.(*stream).openStream", i, s) == s
